@@ -75,7 +75,10 @@ func RunOne(t *testing.T, prop *Prop, tape *core.Tape, opts RunOpts) (res *RunRe
 			if strings.Contains(msg, "deadlock") && strings.Contains(msg, "bubble") {
 				// goroutines still blocked when the bubble's root returned
 				res.Probes["leak_at_bubble_end"]++
-				if prop.HangIsViolation {
+				if prop.HangIsViolation && res.Inconclusive == "" {
+					// (not after a run the scheduler gave up on - step budget, overflow:
+					// its tasks were killed where they stood, and what they were
+					// blocking stays blocked by construction)
 					res.Violations = append(res.Violations, Violation{
 						Class: prop.ID + "/goroutine-leak/bubble-end",
 						Msg:   "goroutines remained blocked after the run: " + firstLines(msg, 80),
